@@ -428,3 +428,27 @@ fn _exp_str_reformat(mut thestr: String) -> String {
     thestr.insert_str(eidx + shift, chars);
     thestr
 }
+
+// verification hooks (feature `verif-hooks`): add-only call-through wrappers
+#[cfg(feature = "verif-hooks")]
+pub mod verif_hooks_info_print {
+    #[allow(unused_imports)]
+    use super::*;
+    /// the private exponent re-formatter
+    pub fn exp_str_reformat(s: String) -> String {
+        super::_exp_str_reformat(s)
+    }
+    /// the `expformat!` macro as used for the table columns
+    pub fn expformat_cost(v: f64) -> String {
+        expformat!("{:+8.4e}", v)
+    }
+    pub fn expformat_res(v: f64) -> String {
+        expformat!("{:6.2e}", v)
+    }
+    pub fn expformat_step(v: f64) -> String {
+        expformat!("{:>.2e}", v)
+    }
+    pub fn bool_on_off(v: bool) -> &'static str {
+        super::_bool_on_off(v)
+    }
+}
